@@ -36,3 +36,13 @@ def c14_fillna_frame_disjoint_on_one_axis(w):
     r, c = k.get('container_common_rows'), k.get('container_common_cols')
     return (w['what'] == 'valid_call_raised' and k.get('op') == 'fillna_frame' and k.get('exception') in ('TypeError', 'ValueError')
             and k.get('zero_cols') is False and ((r == 'none') != (c == 'none')))
+
+
+@predicate
+def c14_series_fillna_series_hierarchy(w):
+    """Series.fillna(Series) on a hierarchical index: the common labels are computed with intersect1d on the 2-D
+    label arrays (unhashable rows / flattened depth values), so the call raises or covers no label"""
+    k = w['klass']
+    return (k.get('kind') == 'series' and k.get('op') == 'fillna_series' and str(k.get('index_kind', '')).startswith('hier')
+            and ((w['what'] == 'valid_call_raised' and k.get('exception') in ('TypeError', 'RuntimeError'))
+                 or w['what'] == 'missing_cell_not_filled'))
